@@ -1,3 +1,4 @@
+import GramModel.Lemmas.ArmsTie
 import GramModel.Check
 import GramModel.Props.C05
 import GramModel.Lemmas.StoreMono
@@ -5,6 +6,7 @@ import GramModel.Lemmas.Whnf
 import GramModel.Lemmas.Fuel
 import GramModel.Typing
 import GramModel.Lemmas.UnifySound
+import GramModel.Lemmas.ConvCoherence
 
 /-!
 # C12 — unification succeeds only with a consistent, well-scoped solution
@@ -307,3 +309,96 @@ example : Conv [none] (.ite (.var 0 0) (.app C12_dup C12_dup) C12_dup)
     { store := [none, none], dctx := [none] } { store := [some (.hole 1 0), some C12_dup], dctx := [none] }
     (by rfl) (by intro e he d o heq; simp at he; subst he; cases heq) (by rfl) (by rfl) (by rfl)
     (fun id sub h => by rcases id with _ | _ | id <;> simp at h) (by rfl) (by rfl) (by rfl) (by rfl)
+
+/-! ## Unifying a hole-free term with itself or with one of its reducts always succeeds
+
+(`Lemmas/ConvCoherence.lean`: an evaluation step is a conversion; `Lemmas/CCUnify.lean`: on hole-free
+terms with joinable erasures `unify` never answers `false`.) -/
+
+/-- (First formulation, **refuted** below.)  No scoping assumption: for a hole-free term and any of
+its reducts, `unify` — at any fuel, from any state with an empty definitions context — does not panic,
+and a run that answers, answers `true` and leaves the state as it was. -/
+def C12_unify_reduct_unrestricted : Prop :=
+  ∀ (f : Nat) (t t' : Tm) (s : St), t.holeFree = true → s.dctx = [] → Steps t t' →
+    (∀ site, unifyS f t t' s ≠ .panic site) ∧
+    ∀ (r : Bool) (s' : St), unifyS f t t' s = .ok r s' → s' = s ∧ r = true
+
+/-- False in its panic-freedom conjunct only, for the reason `C06_unify_layers_agree_refuted` records:
+`normalize_weak_head` indexes the definitions context with a variable's de Bruijn index.  Witness: the
+ill-scoped `if true then x₅ else 0` and its reduct `x₅` under the empty context.  (Not a defect of
+gram: the resolver only produces well-scoped terms.) -/
+theorem C12_unify_reduct_refuted : ¬ C12_unify_reduct_unrestricted := by
+  intro h
+  have hp : unifyS 5 (.ite .tt (.var 0 5) (.lit 0)) (.var 0 5) {} =
+      .panic "normalize_weak_head.definitions_context[index]" := by rfl
+  exact (h 5 _ _ {} rfl rfl (.head .iteT .refl)).1 _ hp
+
+/-- Corrected statement.  For a hole-free term `t`, well scoped in the definitions context of the
+state, and any reduct `t'` of `t` under evaluation (`t' = t` included): the model of gram's `unify`, with
+any fuel, from any state whose definitions context is hole-free and well scoped (offsets in range, every
+recorded definition well scoped where it was pushed — in particular the empty context), never panics,
+and a run that answers, answers `true` and leaves the whole state — store, contexts, diagnostics — as
+it was.  The answer part needs no scoping assumption. -/
+def C12_unify_reduct_stmt : Prop :=
+  ∀ (f : Nat) (t t' : Tm) (s : St), t.holeFree = true →
+    (∀ e ∈ s.dctx, ∀ d o, e = some (d, o) → d.holeFree = true) →
+    (∀ i d off, s.dctx[i]? = some (some (d, off)) →
+      off ≤ i + 1 ∧ wellScoped (s.dctx.length - (i + 1 - off)) d = true) →
+    Steps t t' →
+    (wellScoped s.dctx.length t = true → ∀ site, unifyS f t t' s ≠ .panic site) ∧
+    ∀ (r : Bool) (s' : St), unifyS f t t' s = .ok r s' → s' = s ∧ r = true
+theorem C12_unify_reduct : C12_unify_reduct_stmt := by
+  intro f t t' s ht hD hS hs
+  exact ⟨fun hsc => ConvCoherence.unifyS_steps_no_panic f s ht hD hS hsc hs,
+    fun r s' h => ConvCoherence.unifyS_steps ht hD (ConvCoherence.DSc.dwf hS) hs h⟩
+
+/-- The closed form: a whole program, any state with an empty definitions context (whatever its store,
+typing context and diagnostics). -/
+def C12_unify_reduct_closed_stmt : Prop :=
+  ∀ (f : Nat) (t t' : Tm) (s : St), t.holeFree = true → wellScoped 0 t = true → s.dctx = [] →
+    Steps t t' →
+    (∀ site, unifyS f t t' s ≠ .panic site) ∧
+    ∀ (r : Bool) (s' : St), unifyS f t t' s = .ok r s' → s' = s ∧ r = true
+theorem C12_unify_reduct_closed : C12_unify_reduct_closed_stmt := by
+  intro f t t' s ht hsc hd hs
+  have h := C12_unify_reduct f t t' s ht (by rw [hd]; intro e he; cases he)
+    (by rw [hd]; intro i d off e; simp at e) hs
+  exact ⟨h.1 (by rw [hd]; exact hsc), h.2⟩
+
+/-- With itself, and with the term the fuelled evaluator reaches. -/
+def C12_unify_self_eval_stmt : Prop :=
+  ∀ (f n : Nat) (t : Tm) (s : St), t.holeFree = true → wellScoped 0 t = true → s.dctx = [] →
+    (∀ site, unifyS f t t s ≠ .panic site ∧ unifyS f t (evalFuel n t) s ≠ .panic site) ∧
+    (∀ (r : Bool) (s' : St), unifyS f t t s = .ok r s' → s' = s ∧ r = true) ∧
+    (∀ (r : Bool) (s' : St), unifyS f t (evalFuel n t) s = .ok r s' → s' = s ∧ r = true)
+theorem C12_unify_self_eval : C12_unify_self_eval_stmt := by
+  intro f n t s ht hsc hd
+  have h1 := C12_unify_reduct_closed f t t s ht hsc hd .refl
+  have h2 := C12_unify_reduct_closed f t _ s ht hsc hd (evalFuel_steps n t)
+  exact ⟨fun site => ⟨h1.1 site, h2.1 site⟩, h1.2, h2.2⟩
+
+-- non-vacuity: a recursive program, its reduct after 7 steps (still containing the recursive group)
+-- and its value; `unify` answers `true` on each pair, from a state with a non-trivial store, typing
+-- context and error count, and leaves that state alone
+def C12_fact3 : Tm :=
+  .letg (.cons 0 (.pi 1 false .int .int)
+          (.lam 2 false .int
+            (.ite (.bin .eq (.var 2 0) (.lit 0)) (.lit 1)
+              (.bin .prod (.var 2 0) (.app (.var 0 1) (.bin .diff (.var 2 0) (.lit 1))))))
+          .nil)
+        (.app (.var 0 0) (.lit 3))
+example : C12_fact3.holeFree = true ∧ wellScoped 0 C12_fact3 = true ∧ evalFuel 200 C12_fact3 = .lit 6 := by
+  decide
+example : (match unifyS 60 C12_fact3 (evalFuel 7 C12_fact3) { store := [none], nerrs := 2 } with
+    | .ok r s => r && s.store == [none] && s.nerrs == 2 && s.dctx.isEmpty | _ => false) = true := by decide
+example : (match unifyS 60 C12_fact3 (evalFuel 200 C12_fact3) { store := [none], nerrs := 2 } with
+    | .ok r s => r && s.store == [none] && s.nerrs == 2 | _ => false) = true := by decide
+example : (match unifyS 60 C12_fact3 C12_fact3 {} with | .ok r _ => r | _ => false) = true := by decide
+
+/-! ## The structural arms of `unify` relate like with like (table regenerated from `unifier.rs` on every run) -/
+
+/-- Every structural arm of `unifier.rs::unify` (after weak head normalisation) matches the same variant on both
+sides and unifies the i-th child with the i-th child, every child (λ: bodies only) — in particular each of the
+nine alternatives of the shared arm for binary operators, which the model has as ONE constructor. -/
+def C12_unify_pairs_tie_stmt : Prop := pairsOK Generated.unifyPairs = true
+theorem C12_unify_pairs_tie : C12_unify_pairs_tie_stmt := by unfold C12_unify_pairs_tie_stmt; decide
